@@ -14,8 +14,15 @@
 (* c: lanes, words, init, wwords / rwords (words written / read), walpha   *)
 (*    (write <<sel, data>> pairs), rsels (sel values of reads), dirs,      *)
 (*    readonly, badlo (see FlatMemAxiLite)                                 *)
+(* c.wbidle = 1 (optional): between its requests the master may also       *)
+(*    drive req = 2: cyc without stb (a wait state of a master that keeps  *)
+(*    the bus), or req = 3: stb without cyc (what every slave behind       *)
+(*    wishbone.Decoder sees while another slave is addressed: the decoder  *)
+(*    gates cyc only), in both cases with the we/adr/sel/data of any       *)
+(*    request on the other lines.  Neither is a request: it must not be    *)
+(*    terminated and must not change the memory.                           *)
 (***************************************************************************)
-EXTENDS Integers, Sequences, FiniteSets, TLC
+EXTENDS Integers, Sequences, FiniteSets, TLC, BridgeWit
 
 VARIABLES mem, ms, mobs
 
@@ -28,11 +35,14 @@ MInit(c) ==
   /\ mobs = [okread |-> TRUE, okresp |-> TRUE, okcode |-> TRUE, okhold |-> TRUE,
              wwait |-> FALSE, rwait |-> FALSE, mfair |-> TRUE]
 
-MInputs(c) ==
-  IF ms.open # <<>> THEN { ms.open }
-  ELSE { <<0, 0, 0, 0, 0>> } \cup
+Requests(c) ==
        (IF c.dirs = "w" THEN {} ELSE { <<1, c.rwords[j], 0, c.rsels[i], 0>> : j \in 1..Len(c.rwords), i \in 1..Len(c.rsels) }) \cup
        (IF c.dirs = "r" THEN {} ELSE { <<1, c.wwords[j], 1, c.walpha[i][1], c.walpha[i][2]>> : j \in 1..Len(c.wwords), i \in 1..Len(c.walpha) })
+
+MInputs(c) ==
+  IF ms.open # <<>> THEN { ms.open }
+  ELSE { <<0, 0, 0, 0, 0>> } \cup Requests(c) \cup
+       (IF Flag(c, "wbidle") THEN { <<q, x[2], x[3], x[4], x[5]>> : q \in {2, 3}, x \in Requests(c) } ELSE {})
 
 BadWord(c, a) == c.badlo > 0 /\ a * c.lanes + 1 >= c.badlo
 
@@ -61,6 +71,8 @@ MStep(c, miv, mo) ==
               wwait  |-> req /\ we = 1 /\ ~term,
               rwait  |-> req /\ we = 0 /\ ~term,
               mfair  |-> TRUE]
+  /\ WitIf(miv[1] = 2, c, 1, "cyc without stb")
+  /\ WitIf(miv[1] = 3, c, 2, "stb without cyc")
 
 MEvents(c, miv, mo) ==
   LET term == mo[1] = 1 \/ mo[2] = 1 IN
